@@ -125,7 +125,7 @@ def gen_history(rng, qu_ok, n_items=None):
 
 def gen_case(seed, idx, qu_ok):
     rng = C.rng_for(seed, "c16", idx, qu_ok)
-    return {
+    case = {
         "seed": seed, "idx": idx, "qu_ok": qu_ok,
         "n_services": rng.choice([1, 1, 2]),
         "browse_own": rng.random() < 0.3,
@@ -137,6 +137,9 @@ def gen_case(seed, idx, qu_ok):
         "dup_gap": rng.choice([0, 0, 0, 1, 500, 999]),
         "items": [dict(it, data=it["data"].hex(), src=list(it["src"])) for it in gen_history(rng, qu_ok)],
     }
+    if case["dup_gap"]:
+        case["lookup"] = False   # (a lookup's wake-ups tie with arrivals at round instants; the order of same-instant timers is unspecified)
+    return case
 
 
 # ------------------------------------------------------------------------------------------
@@ -400,6 +403,7 @@ def simulate(case, dupmask, skip_d11=False):
         lst = zc.engine.protocols[0]
         count = {"n": 0}
         orig_deliver = a.deliver
+        pending_copies = []
 
         def deliver_once(data, src):
             if a.transport is None or a.transport.closed:
@@ -425,6 +429,7 @@ def simulate(case, dupmask, skip_d11=False):
             tcdraw = [d for d in draws if d[0] == 400 and d[1] == 500] if processed and tag.startswith("deferred:") else []
             obs["lblocks"].append({"op": "recv", "t": sim.now(), "data": data.hex(), "addr": src[0], "port": src[1], "entries": entries,
                                    "tcdraw": tcdraw[0] if tcdraw else None, "tag": tag, "timers": timers_of(lst), "deferred": deferred_of(lst)})
+            return processed
 
         def deliver(data, src):
             # a delivery is identified by (time, bytes, source, occurrence), not by its position: an allowed extra unicast
@@ -445,17 +450,21 @@ def simulate(case, dupmask, skip_d11=False):
                 if twice:
                     obs["sigs"][i] = dict(sg, t=sim.now(), data=data.hex(), src=list(src))
             n_s, n_c = len(obs["sends"]), len(obs["callbacks"])
-            deliver_once(data, src)
+            was_processed = deliver_once(data, src)
             if twice:
                 gap = case.get("dup_gap", 0)
-                if gap and not features(data)["query"]:
+                # (a copy of a datagram that was itself dropped as a repeat of an older one is not "the same datagram twice":
+                # the window counts from the older one -- `example` in Props/C16.lean -- so only processed datagrams get a late copy)
+                if gap and not cur.get("injecting"):
+                    return   # looped-back traffic of the instance is not given late copies (they would not be delivered in time)
+                if gap and was_processed and not features(data)["query"]:
                     # a copy that arrives later (real link-layer duplicates do): still "immediate succession on the socket" only
                     # if nothing else arrived in between -- checked when the copy is due
                     def late_copy(data=data, src=src, lm=lst.last_message):
                         if lst.last_message is lm:
                             obs["gap_copies"] += 1
                             deliver_once(data, src)
-                    sim.loop.call_later(gap / 1000.0, late_copy)
+                    pending_copies.append(late_copy)   # delivered by the scenario itself, `gap` ms later (no extra loop timer)
                     return
                 first = {"sends": obs["sends"][n_s:], "callbacks": obs["callbacks"][n_c:]}
                 n_s2, n_c2 = len(obs["sends"]), len(obs["callbacks"])
@@ -464,7 +473,7 @@ def simulate(case, dupmask, skip_d11=False):
                 if sg["qu"]:
                     after = downstream_digest(zc)
                     second = {"sends": obs["sends"][n_s2:], "callbacks": obs["callbacks"][n_c2:]}
-                    obs["second_copies"].append({"key": i, "sig": known_sig(sg), "tc": sg["tc"], "remulticast": sorted(set(sg["remulticast"])),
+                    obs["second_copies"].append({"key": i, "sig": known_sig(sg), "tc": sg["tc"], "qm": sg["qm_answers"], "remulticast": sorted(set(sg["remulticast"])),
                                                  "first": first, "second": second,
                                                  "cache_same": before["cache"] == after["cache"], "queues_same": before["queues"] == after["queues"]})
 
@@ -497,11 +506,21 @@ def simulate(case, dupmask, skip_d11=False):
                 ok = await si.async_request(zc, 3000)
                 obs["callbacks"].append([sim.now(), "lookup", "done", [bool(ok), si.port, sorted(a_.hex() for a_ in si.addresses), si.text.hex() if si.text else None]])
             lookup = asyncio.ensure_future(do_lookup())
-        for it in case["items"]:
-            if it["gap"]:
-                await sim.sleep_ms(it["gap"])
-            a.deliver(bytes.fromhex(it["data"]), tuple(it["src"]))
-        await sim.sleep_ms(case["tail"])
+        dgap = case.get("dup_gap", 0)
+        for it in list(case["items"]) + [{"gap": case["tail"], "data": None}]:
+            wait = it["gap"]
+            if dgap and wait > dgap:   # room for late copies before the next arrival (the reference run sleeps the same way)
+                await sim.sleep_ms(dgap)
+                for f_ in pending_copies:
+                    f_()
+                wait -= dgap
+            del pending_copies[:]
+            if wait:
+                await sim.sleep_ms(wait)
+            if it["data"] is not None:
+                cur["injecting"] = True
+                a.deliver(bytes.fromhex(it["data"]), tuple(it["src"]))
+                cur["injecting"] = False
         if lookup is not None:
             await lookup
         obs["cache"] = sorted(C.rec_line(r, created=int(r.created) - vsim.T0) for rs in zc.cache.cache.values() for r in rs)
@@ -540,8 +559,8 @@ def allowed_keys(dup):
 
 def mark(obs, keys, ref=None):
     """events for the equivalence predicate: [time, allowed-extra?, digest].  An event of the duplicated run may be an
-    allowed extra only if it is unicast to a duplicated QU querier at that instant, carries no record the reference run did
-    not send there at that instant, and the number of extras there does not exceed the number of duplicated queries."""
+    allowed extra only if it is unicast to a duplicated QU querier at that instant and the number of extras there does not
+    exceed the number of duplicated queries."""
     ref_at, n_ref, n_dup = {}, {}, {}
     for s_ in (ref or obs)["sends"]:
         if is_unicast(s_):
@@ -555,8 +574,10 @@ def mark(obs, keys, ref=None):
     out = []
     for s_ in obs["sends"]:
         k = (s_[0], s_[1], s_[2])
-        ok = (is_unicast(s_) and k in keys and n_dup.get(k, 0) - n_ref.get(k, 0) <= keys[k]
-              and len(s_[3]) > 2 and isinstance(s_[3][2], list) and set(s_[3][2]) <= ref_at.get(k, set()))
+        # (no test on the content: the first copy of a query is answered together with the truncated packets deferred for its
+        # address -- their questions *and* their known answers --, the second copy alone, so the second answer can carry fewer
+        # records or more than the first; what is bounded is the number: one extra per duplicated query)
+        ok = is_unicast(s_) and k in keys and n_dup.get(k, 0) - n_ref.get(k, 0) <= keys[k]
         out.append([s_[0], bool(ok), C.digest(s_)])
     return out
 
@@ -708,14 +729,15 @@ def second_copy_findings(obs):
         where = {"delivery": sc["key"], "finding": sc["sig"]}
         if sc["second"]["callbacks"]:
             bad.append(("C16:second-copy-fires-callbacks", "the second copy of a QU query fired %d callbacks" % len(sc["second"]["callbacks"]), where))
-        if len(uni) > 1 or any(len(x[3]) > 2 and not set(x[3][2]) <= first_uni for x in uni):
-            bad.append(("C16:second-copy-unicast-not-a-repeat", "the second copy of a QU query was answered by %d unicast datagrams / with records the first answer did not carry" % len(uni), where))
+        n_first_uni = sum(1 for x in sc["first"]["sends"] if is_unicast(x))
+        if len(uni) > max(1, n_first_uni):
+            bad.append(("C16:second-copy-unicast-not-a-repeat", "the second copy of a QU query was answered by %d unicast datagrams (the first by %d)" % (len(uni), n_first_uni), where))
         extra_mc = [k for x in mc if len(x[3]) > 2 for k in x[3][2] if rkey(k) not in allowed_mc]
         if extra_mc and sc["sig"]:
             bad.append(("C16:second-copy-multicasts-unpredicted-records", "under %s the second copy multicast %d records the finding does not predict" % (sc["sig"], len(extra_mc)), where))
         if not sc["cache_same"]:
             bad.append(("C16:second-copy-changes-cache", "answering the second copy of a QU query changed the cache (QueryRepeatNeutral fails on the real handler)", where))
-        if not sc["queues_same"] and sc["sig"] != D11B_SIG:
+        if not sc["queues_same"] and not sc["qm"]:
             bad.append(("C16:second-copy-changes-queues", "answering the second copy of a QU query changed the answer queues although no recorded finding applies", where))
     return bad
 
